@@ -292,6 +292,15 @@ def run_cell(acc, cell, tmpdir, seed):
                     second["served"] = True
                     dev.onboarded = True
             ae.on_prompt = second_operator
+        if plat == "ledger" and rng.random() < 0.25 and (
+                (cmd == "onboard" and onb) or (cmd in ("unlock", "changepin") and not onb)):
+            # a device the command must leave alone (onboarded already / not onboarded), one
+            # of whose first answers comes later than the host waits for it - and is then
+            # what the next read finds on the HID queue: whatever the tool makes of the
+            # shifted answers, it is not a licence
+            from ..simdev.transport import Fault
+            ae.bus.arm({rng.randrange(0, 4): Fault("late")})
+            acc.count("cells_on_a_device_to_leave_alone_with_a_late_answer_early_on")
         swap = {"at": None, "what": None}
         if plat == "ledger" and cmd == "onboard" and zlib.crc32(repr(cell).encode()) % 2 == 1:
             # Ledger onboarding goes on after "disconnect and re-connect the ledger, press
